@@ -98,8 +98,9 @@ func newDexOracle() *dexOracle {
 type dexInput struct {
 	remote        *lib.DexBatch // as delivered (root: certificate DexBatch; nested: cached root batch, or the certified one with points on fallback)
 	fallback      bool
-	counterPool   *big.Int // real liquidity pool of the counter chain in the state the batch was read from (nil: unknown)
-	prevBlockHash []byte   // hash of the previous block of the executing chain (seed of the pseudo-random execution order)
+	counterPool   *big.Int  // real liquidity pool of the counter chain in the state the batch was read from (nil: unknown)
+	prevBlockHash []byte    // hash of the previous block of the executing chain (seed of the pseudo-random execution order)
+	counterLedger *fsm.Pool // fallback only: the counter chain's real liquidity pool (points ledger) in the state the batch was read from
 }
 
 func batchHash(b *lib.DexBatch) []byte {
@@ -319,6 +320,9 @@ func (o *dexOracle) replay(self, counter, h uint64, pre, post *chainsim.RawState
 				credits.add(ord.Address, u(ord.AmountForSale))
 				if le := o.orders[lib.BytesToString(ord.OrderId)]; le != nil {
 					le.settled++
+					if le.executed > 0 && le.paid != 0 {
+						return fmt.Errorf("%s: liveness fallback refunds order %x in full although the counter chain has executed it and paid %d", where, ord.OrderId, le.paid)
+					}
 				}
 			}
 			for _, d := range L.Deposits {
@@ -340,6 +344,17 @@ func (o *dexOracle) replay(self, counter, h uint64, pre, post *chainsim.RawState
 		led = &pointsLedger{pts: map[string]*big.Int{}, total: u(R.TotalPoolPoints)}
 		for _, pp := range R.PoolPoints {
 			led.pts[string(pp.Address)] = u(pp.Points)
+		}
+		if in.counterLedger != nil {
+			// documented: the fallback "mirrors the root chain's liquidity points"
+			real := ledgerOf(in.counterLedger)
+			same := real.total.Cmp(led.total) == 0 && len(real.pts) == len(led.pts)
+			for a, p := range real.pts {
+				same = same && led.pts[a] != nil && led.pts[a].Cmp(p) == 0
+			}
+			if !same {
+				return fmt.Errorf("%s: liveness fallback replaces the points ledger by %d holders / total %s, the root chain's ledger has %d holders / total %s", where, len(led.pts), led.total, len(real.pts), real.total)
+			}
 		}
 		L = nil
 	}
@@ -473,6 +488,9 @@ func (o *dexOracle) replay(self, counter, h uint64, pre, post *chainsim.RawState
 				le.paid = sw.BoughtAmount
 				if le.executed > 1 {
 					return fmt.Errorf("%s: order %x executed %d times by the counter chain", where, ord.OrderId, le.executed)
+				}
+				if le.settled > 0 && sw.Success {
+					return fmt.Errorf("%s: order %x executed by the counter chain (paid %d) after its origin chain had already refunded it", where, ord.OrderId, sw.BoughtAmount)
 				}
 			}
 			if sw.Success {
